@@ -32,7 +32,7 @@ def queries():
     import queries.C09 as c09, queries.C17 as c17, queries.C07 as c07, queries.C08 as c08
     for mod, quick in ((c09, True), (c07, True), (c17, False), (c08, False)):
         for q in mod.queries():
-            if q.name == "position-getter" or "conversions" in q.name:
+            if q.name == "position-getter" or "conversions" in q.name or "[borrowed" in (q.note or ""):
                 continue
             q2 = copy.copy(q)
             q2.name = "contracts-" + mod.__name__.split(".")[-1] + "-" + q.name
@@ -49,6 +49,8 @@ def queries():
     import queries.C03 as c03, queries.C04 as c04, queries.C06 as c06
     for mod, pick in ((c03, lambda q: True), (c04, lambda q: q.tier == "quick"), (c06, lambda q: "queue" in q.name and "size3" in q.name)):
         for q in mod.queries():
+            if "[borrowed" in (q.note or ""):
+                continue
             q2 = copy.copy(q)
             q2.name = "tags-" + mod.__name__.split(".")[-1] + "-" + q.name
             q2.defs = dict(q.defs, VERIF_LOCK_TAGS=None)
